@@ -92,10 +92,18 @@ plural `n ++ "s"`, in any mix of upper and lower case. -/
 def spells (s n : Str) : Bool :=
   lower s == n || (decide (2 ≤ n.length) && lower s == n ++ [115])
 
-/-- the unit (family index, unit) a string denotes, if any -/
-def recognise (s : Str) : Option (Nat × SUnit) :=
-  (spec.zipIdx).findSome? fun (F, i) =>
-    (F.units.find? fun u => u.names.any (spells s)).map fun u => (i, u)
+/-- the unit (family index, unit) a string denotes, if any: the name it is printed with, exactly
+(pprof's reports hand their chosen unit back as a target; "m*GCU" and "M*GCU" differ in case
+only), or a spelling of one of its names.  `l` is the lower-cased form of `s` (the harness passes
+Go's `strings.ToLower`, which also knows non-ASCII letters). -/
+def recognise2 (s l : Str) : Option (Nat × SUnit) :=
+  match (spec.zipIdx).findSome? fun (F, i) => (F.units.find? fun u => u.display == s).map fun u => (i, u) with
+  | some r => some r
+  | none =>
+    (spec.zipIdx).findSome? fun (F, i) =>
+      (F.units.find? fun u => u.names.any (spells l)).map fun u => (i, u)
+
+def recognise (s : Str) : Option (Nat × SUnit) := recognise2 s (lower s)
 
 /-- the target strings that ask for automatic unit selection -/
 def autoTargets : List Str := [[97, 117, 116, 111] /- "auto" -/, [109, 105, 110, 105, 109, 117, 109] /- "minimum" -/]
